@@ -280,7 +280,8 @@ func propC08(run *Run, n int) {
 		cfg func() GenCfg
 		lbl string
 	}
-	choices := []ch{{OptSetO, DefaultCfg, "SET"}, {OptMset, DefaultCfg, "MULTISET"}, {OptKeys("id"), keyed, "SetKeys(id)"}, {OptKeys("id"), keyed, "SetKeys(id)"}}
+	keyed2 := func() GenCfg { c := DefaultCfg(); c.SetKeys = []string{"id", "k"}; c.Keys = []string{"a", "id", "k", "x"}; c.ScalarBias = 3; return c }
+	choices := []ch{{OptSetO, DefaultCfg, "SET"}, {OptMset, DefaultCfg, "MULTISET"}, {OptKeys("id"), keyed, "SetKeys(id)"}, {OptKeys("id"), keyed, "SetKeys(id)"}, {OptKeys("id", "k"), keyed2, "SetKeys(id,k)"}}
 	for i := 0; i < n; i++ {
 		c := choices[r.Intn(len(choices))]
 		cfg := c.cfg()
@@ -316,9 +317,48 @@ func propC08(run *Run, n int) {
 					permuteDeep(r, t, false)
 				}
 			}
+			if len(cfg.SetKeys) > 1 && r.Chance(1, 2) {
+				addSwappedKeyMember(r, t, cfg.SetKeys)
+			}
 			addC08Case(run, c.lbl, t, joinHunks(sub))
 		}
 	}
+}
+
+// addSwappedKeyMember inserts, in front of some keyed member of an array, a copy whose key values are
+// swapped between the keys (a different key tuple with the same multiset of key values).
+func addSwappedKeyMember(r *Rng, v *Val, keys []string) bool {
+	switch v.K {
+	case KArr:
+		for i, e := range v.A {
+			if e.K == KObj {
+				k0, k1 := keys[0], keys[1]
+				x, okx := e.O[k0]
+				y, oky := e.O[k1]
+				if okx && oky && x.Wire() != y.Wire() && r.Chance(1, 2) {
+					c := e.Clone()
+					c.O[k0], c.O[k1] = y.Clone(), x.Clone()
+					if r.Chance(1, 2) {
+						c.O["x"] = VNum(7)
+					}
+					v.A = append(v.A[:i], append([]*Val{c}, v.A[i:]...)...)
+					return true
+				}
+			}
+		}
+		for _, e := range v.A {
+			if addSwappedKeyMember(r, e, keys) {
+				return true
+			}
+		}
+	case KObj:
+		for _, k := range v.Keys() {
+			if addSwappedKeyMember(r, v.O[k], keys) {
+				return true
+			}
+		}
+	}
+	return false
 }
 
 func addC08Case(run *Run, label string, t *Val, dw string) {
